@@ -60,17 +60,20 @@ FpClauses(cfg, gh, n) ==
                   THEN {"FpSameAsSlow"} ELSE {})
         : j \in 1..Len(n.fp) }
 
+\* sweep of all IPv4 Identification values (when the node carries one): no transmitted reply may be malformed
+SweepClauses(n) == IF "sweep" \in DOMAIN n /\ n.sweep.bad > 0 THEN {"FpWellFormed"} ELSE {}
+
 Init == /\ sys \in 1..Len(Systems)
         /\ node = Systems[sys].init
         /\ g = G0(Cfg(sys))
         /\ lastop = "init"
-        /\ viol = FpClauses(Cfg(sys), g, NodeOf(sys, node)) \cap Watch
+        /\ viol = (FpClauses(Cfg(sys), g, NodeOf(sys, node)) \cup SweepClauses(NodeOf(sys, node))) \cap Watch
         /\ path = <<>>
 Next == /\ viol = {}
         /\ \E k \in 1..Len(EdgesOf(sys, node)) :
              LET ed == EdgesOf(sys, node)[k]  g2 == Step(Cfg(sys), g, ed.ev) IN
                 /\ node' = ed.to /\ g' = g2 /\ lastop' = ed.ev.op
-                /\ viol' = FpClauses(Cfg(sys), g2, NodeOf(sys, ed.to)) \cap Watch
+                /\ viol' = (FpClauses(Cfg(sys), g2, NodeOf(sys, ed.to)) \cup SweepClauses(NodeOf(sys, ed.to))) \cap Watch
                 /\ path' = Append(path, ed.id)
                 /\ UNCHANGED sys
 Spec == Init /\ [][Next]_vars
